@@ -115,6 +115,31 @@ long _ZNSt6chrono3_V212system_clock3nowEv(void) {
   struct timespec ts; clock_gettime(CLOCK_REALTIME, &ts);
   return (long)ts.tv_sec * 1000000000L + ts.tv_nsec;
 }
+/* native counterpart of the timed-wait hook (rt.h vf_cwait_arm); notifications are seen by interposing pthread_cond_broadcast / pthread_cond_signal */
+static rt_inject_fn *cwait_f; static int cond_notified;
+void vf_cwait_arm(rt_inject_fn *fn) { cwait_f = fn; }
+int vf_cwait_pending(void) { return cwait_f != 0; }
+void vf_cwait_disarm(void) { cwait_f = 0; }
+int pthread_cond_broadcast(pthread_cond_t *c) {
+  static int (*real)(pthread_cond_t*);
+  if (!real) real = (int (*)(pthread_cond_t*))dlsym(RTLD_NEXT, "pthread_cond_broadcast");
+  cond_notified = 1; return real(c);
+}
+int pthread_cond_signal(pthread_cond_t *c) {
+  static int (*real)(pthread_cond_t*);
+  if (!real) real = (int (*)(pthread_cond_t*))dlsym(RTLD_NEXT, "pthread_cond_signal");
+  cond_notified = 1; return real(c);
+}
+static int vclock_hook(pthread_mutex_t *m) {
+  if (cwait_f && !in_hook) {
+    static int (*rlock)(pthread_mutex_t*);
+    if (!rlock) rlock = (int (*)(pthread_mutex_t*))dlsym(RTLD_NEXT, "pthread_mutex_lock");
+    rt_inject_fn *f = cwait_f; cwait_f = 0; cond_notified = 0;
+    pthread_mutex_unlock(m); in_hook = 1; f(); in_hook = 0; rlock(m);
+    if (cond_notified) return 1;
+  }
+  return 0;
+}
 static int vclock_wait(const struct timespec *ts) {
   if (ts->tv_sec >= 9223372036L) { fflush(stdout); fprintf(stderr, "VF_ASSERT_FAILED: rt: condition_variable wait without deadline and no other thread to notify (blocks forever)\n"); _Exit(42); }
   long long d = (long long)ts->tv_sec * 1000000000LL + ts->tv_nsec;
@@ -123,13 +148,13 @@ static int vclock_wait(const struct timespec *ts) {
   return ETIMEDOUT;
 }
 int pthread_cond_timedwait(pthread_cond_t *c, pthread_mutex_t *m, const struct timespec *ts) {
-  if (vclock_on) return vclock_wait(ts);
+  if (vclock_on) return vclock_hook(m) ? 0 : vclock_wait(ts);
   static int (*real)(pthread_cond_t*, pthread_mutex_t*, const struct timespec*);
   if (!real) real = (int (*)(pthread_cond_t*, pthread_mutex_t*, const struct timespec*))dlsym(RTLD_NEXT, "pthread_cond_timedwait");
   return real(c, m, ts);
 }
 int pthread_cond_clockwait(pthread_cond_t *c, pthread_mutex_t *m, clockid_t clk, const struct timespec *ts) {
-  if (vclock_on) return vclock_wait(ts);
+  if (vclock_on) return vclock_hook(m) ? 0 : vclock_wait(ts);
   static int (*real)(pthread_cond_t*, pthread_mutex_t*, clockid_t, const struct timespec*);
   if (!real) real = (int (*)(pthread_cond_t*, pthread_mutex_t*, clockid_t, const struct timespec*))dlsym(RTLD_NEXT, "pthread_cond_clockwait");
   return real(c, m, clk, ts);
